@@ -176,6 +176,12 @@ def run(chk, fb, tier):
     from props import C06
 
     C06.rule_variants(chk, fb, "C04.b.variants")
+    C06.rule_empty_arms(chk, fb, "C04.b.empty")
     symmetry.rule_enum_tables(chk, fb, "C04.b.enums")
+    symmetry.rule_omitted_defaults(chk, fb, "C04.b.defaults")
+    from props import C02
+
+    C02.rule_quote_inverse(chk, fb, "C04.a.quote")
+    C02.rule_unordered_once(chk, fb, "C04.d")
     chk.assume("quick-xml escape()/unescape() are inverse on the five predefined entities")
     chk.note("not decided: fixed-point equality of generations (value-level); unknown parts pass-through")
